@@ -50,7 +50,11 @@ struct el_set : cc::ellen_bintree::traits { typedef KeyEx key_extractor; typedef
 struct el_map : cc::ellen_bintree::traits { typedef Less less; typedef cds::atomicity::item_counter item_counter; };
 
 // ---- Bronson AVL tree
-template <class M> struct TrueHeights : M {   // recompute real subtree heights (the library's own check compares child heights without adding one)
+// Recomputes real subtree heights (the library's own check compares child heights without adding one).  Works on the pointer variant
+// of the tree; the value variants derive privately from it, so this file is compiled with -fno-access-control (see Makefile) to reach
+// the protected helpers and the private base.
+template <class M> struct TrueHeights {
+    M* t; explicit TrueHeights(M* tree) : t(tree) {}
     typedef typename M::node_type N;
     int H(N* n) { if (!n) return 0; int l = H(M::child(n, -1, atomics::memory_order_relaxed)), r = H(M::child(n, 1, atomics::memory_order_relaxed)); return 1 + (l > r ? l : r); }
     // The one imbalance the algorithm leaves behind by design (known finding, DESIGN.md 9.2): node n is 2 too tall on the side of a
@@ -76,9 +80,12 @@ template <class M> struct TrueHeights : M {   // recompute real subtree heights 
     }
     int blocked = 0, damaged = 0;
     void dump(N* n, std::string& out) { if (!n) { out += "-"; return; } char b[64]; snprintf(b, sizeof b, "(%ld%s h%d ", (long)n->m_key, n->is_valued(atomics::memory_order_relaxed) ? "" : "*", (int)n->m_nHeight.load(atomics::memory_order_relaxed)); out += b; dump(M::child(n, -1, atomics::memory_order_relaxed), out); out += " "; dump(M::child(n, 1, atomics::memory_order_relaxed), out); out += ")"; }
-    std::string dump() { std::string o; dump(M::child(this->m_pRoot, 1, atomics::memory_order_relaxed), o); return o; }
-    bool avl(bool& ordered) { bool b = true; ordered = true; blocked = 0; damaged = 0; erased.clear(); if (g_consistency_ctx) for (auto& e : g_consistency_ctx->hist) { if ((e.kind == ERASE || e.kind == EXTRACT) && (!e.done || e.r)) erased.insert(e.a); if ((e.kind == EXTRACT_MIN || e.kind == EXTRACT_MAX) && e.done && e.r) erased.insert(e.r3); if (e.kind == EXTRACT_MIN || e.kind == EXTRACT_MAX || e.kind == CLEAR) { if (!e.done || e.kind == CLEAR) for (long k = 0; k < 64; k++) erased.insert(k); } } height(M::child(this->m_pRoot, 1, atomics::memory_order_relaxed), b, ordered, -(1L << 60), 1L << 60); return b; }
+    std::string dump() { std::string o; dump(M::child(t->m_pRoot, 1, atomics::memory_order_relaxed), o); return o; }
+    bool avl(bool& ordered) { bool b = true; ordered = true; blocked = 0; damaged = 0; erased.clear(); if (g_consistency_ctx) for (auto& e : g_consistency_ctx->hist) { if ((e.kind == ERASE || e.kind == EXTRACT) && (!e.done || e.r)) erased.insert(e.a); if ((e.kind == EXTRACT_MIN || e.kind == EXTRACT_MAX) && e.done && e.r) erased.insert(e.r3); if (e.kind == EXTRACT_MIN || e.kind == EXTRACT_MAX || e.kind == CLEAR) { if (!e.done || e.kind == CLEAR) for (long k = 0; k < 64; k++) erased.insert(k); } } height(M::child(t->m_pRoot, 1, atomics::memory_order_relaxed), b, ordered, -(1L << 60), 1L << 60); return b; }
 };
+template <class Tree, class Chk> bool bronson_consistent(Tree* s, Chk* chk, std::string& why) { bool ordered = true; bool bal = chk->avl(ordered); if (!s->check_consistency() || !ordered) { why = "BronsonAVLTreeMap: search-tree order violated at quiescence"; return false; } if (!bal) { why = "BronsonAVLTreeMap: AVL balance violated at quiescence; tree (key[* = routing node] stored-height left right): " + chk->dump(); return false; }
+        if (chk->damaged) { why = "BronsonAVLTreeMap: a routing node with fewer than two children is still linked at quiescence (it can never be repaired: empty() is wrong, extract_min()/clear() spin on it); tree: " + chk->dump(); return false; }
+        if (chk->blocked) { why = "@avl-imbalance-behind-routing-node BronsonAVLTreeMap: at quiescence a node is 2 too tall on the side of a routing child (double rotation refused, never repaired); tree (key[* = routing node] stored-height left right): " + chk->dump(); return false; } return true; }
 struct BF { R* r; template <class K, class V> void operator()(K const&, V& v) const { ++r->calls; r->inst = v; } };
 template <class M> struct BronA {
     typedef typename SmrOf<typename M::gc>::type Smr; static const unsigned caps = CAPS_BRONSON; static const bool update_replaces = false, ordered = true;
@@ -96,10 +103,9 @@ template <class M> struct BronA {
     bool traverse(std::vector<long>&) { return false; }
     long size() { return (long)s->size(); } bool empty() { return s->empty(); }
     bool consistent(std::string& why) {
-        // the value variant derives privately from the pointer variant, so only the library's own check is reachable here;
-        // true subtree heights are recomputed for the pointer variant (BronP), which shares all of the tree code
-        if (!s->check_consistency()) { why = "BronsonAVLTreeMap::check_consistency() returned false at quiescence"; return false; }
-        return true;
+        // the value variant derives privately from the pointer variant, which holds all of the tree code: check that base (-fno-access-control)
+        typedef typename M::base_class B; B* base = (B*)s.get(); /* a C-style cast may convert to a private base */ TrueHeights<B> chk(base);
+        return bronson_consistent(s.get(), &chk, why);
     }
     void probes(Ctx& c) { auto const& st = s->statistics(); c.probe("bronson_rotations", (long)(st.m_nRightRotation.get() + st.m_nLeftRotation.get() + st.m_nLeftRightRotation.get() + st.m_nRightLeftRotation.get())); c.probe("bronson_update_retry", (long)st.m_nUpdateRetry.get()); c.probe("bronson_find_retry", (long)st.m_nFindRetry.get()); }
 };
@@ -108,8 +114,8 @@ struct PDisp { void operator()(Item* p) const { delete p; } };
 struct BPF { R* r; template <class K> void operator()(K const&, Item& v) const { ++r->calls; r->inst = v.inst; } };
 template <class M> struct BronP {
     typedef typename SmrOf<typename M::gc>::type Smr; static const unsigned caps = CAP(INSERT) | CAP(ERASE) | CAP(CONTAINS) | CAP(FIND) | CAP(UPDATE) | CAP(UPSERT_NOINS) | CAP(EXTRACT) | CAP(EXTRACT_MIN) | CAP(EXTRACT_MAX); static const bool update_replaces = true, ordered = true;
-    std::unique_ptr<TrueHeights<M>> s;
-    explicit BronP(const Program&) { s.reset(new TrueHeights<M>()); }
+    std::unique_ptr<M> s; std::unique_ptr<TrueHeights<M>> chk;
+    explicit BronP(const Program&) { s.reset(new M()); chk.reset(new TrueHeights<M>(s.get())); }
     R insert(long key, long inst, int) { R r; Item* v = new Item(key, inst); r.ok = s->insert(key, v); if (!r.ok) delete v; return r; }
     R erase(long key, int form) { R r; if (form == 1) { r.ok = s->erase(key, BPF{&r}); if ((r.ok && r.calls != 1) || (!r.ok && r.calls)) r.calls = -100; } else r.ok = s->erase(key); return r; }
     R contains(long key) { R r; r.ok = s->contains(key); return r; }
@@ -121,9 +127,7 @@ template <class M> struct BronP {
     R extract_max() { R r; long k = 0; auto xp = s->extract_max_key(k); if (xp) { r.ok = true; r.inst = xp->inst; r.key = k; } xp.release(); return r; }
     bool traverse(std::vector<long>&) { return false; }
     long size() { return (long)s->size(); } bool empty() { return s->empty(); }
-    bool consistent(std::string& why) { bool ordered = true; bool bal = s->avl(ordered); if (!s->check_consistency() || !ordered) { why = "BronsonAVLTreeMap<T*>: search-tree order violated at quiescence"; return false; } if (!bal) { why = "BronsonAVLTreeMap<T*>: AVL balance violated at quiescence; tree (key[* = routing node] stored-height left right): " + s->dump(); return false; }
-        if (s->damaged) { why = "BronsonAVLTreeMap<T*>: a routing node with fewer than two children is still linked at quiescence (it can never be repaired: empty() is wrong, extract_min()/clear() spin on it); tree: " + s->dump(); return false; }
-        if (s->blocked) { why = "@avl-imbalance-behind-routing-node BronsonAVLTreeMap<T*>: at quiescence a node is 2 too tall on the side of a routing child (double rotation refused, never repaired); tree (key[* = routing node] stored-height left right): " + s->dump(); return false; } return true; }
+    bool consistent(std::string& why) { return bronson_consistent(s.get(), chk.get(), why); }
     void probes(Ctx&) {}
 };
 struct br_inj : cc::bronson_avltree::traits { typedef Less less; typedef cds::atomicity::item_counter item_counter; typedef cc::bronson_avltree::stat<> stat; };
